@@ -571,7 +571,7 @@ impl CaseDriver for C20 {
     }
     fn describe(&self, _tier: Tier) -> Describe {
         Describe {
-            rule: "inputs: raw libraries with 1-2 abstract cells whose 1-2 ports carry shapes on 1-3 layers and whose blockages sit on 0/2/3 layers (unordered maps with 1-3 keys, every insertion order), 1-2 shapes per layer, plus a layout cell with elements on 3 layers x 2 purposes, an annotation and a reflected+rotated instance; LEF / protobuf / GDSII inputs derived from them in a fixed order. Conversions: raw->GDSII (bytes, dates pinned), raw->protobuf (prost bytes), raw->LEF (serde_json), LEF->raw->LEF, protobuf->raw->protobuf, GDSII->raw, raw->GDSII->raw, gridded layout->raw (raw results as an order-preserving dump; the gridded cell optionally holds two instances abutting along the tracks), and two conversions whose result is an error - GDSII->raw on struct rings of 2..4 closed by SREF / AREF (optionally a second ring, either listing order) raw->protobuf on cell rings, raw->GDSII / raw->protobuf of an element whose layer does not define its purpose, raw->protobuf of an unnamed instance rotated by 22.5 degrees, and gridded layout->raw of a cut lying under an instance / of two overlapping cuts - where the rendered error is the compared output. Configurations: every input is rebuilt / re-imported with fresh HashMaps until each of the k! iteration orders of every map the exporter walks has been observed on the very map objects (minimum 32, cap 4096 rebuilds; coverage measured and reported as tags), plus fresh OS processes; conversions that expose no map (GDSII->raw) are repeated 32 times - unordered containers internal to a converter cannot be enumerated, only exercised. Two of the three layers may share a layer number, and then the other layers also define each purpose under two numbers. A state is (input, conversion); non-trivial = some map has >= 2 keys.".into(),
+            rule: "inputs: raw libraries with 1-2 abstract cells whose 1-2 ports carry shapes on 1-3 layers and whose blockages sit on 0/2/3 layers (unordered maps with 1-3 keys, every insertion order), 1-2 shapes per layer, plus a layout cell with elements on 3 layers x 2 purposes, an annotation and a reflected+rotated instance; LEF / protobuf / GDSII inputs derived from them in a fixed order. Conversions: raw->GDSII (bytes, dates pinned), raw->protobuf (prost bytes), raw->LEF (serde_json), LEF->raw->LEF, protobuf->raw->protobuf, GDSII->raw, raw->GDSII->raw, gridded layout->raw (raw results as an order-preserving dump; the gridded cell optionally holds two instances abutting along the tracks), and two conversions whose result is an error - GDSII->raw on struct rings of 2..4 closed by SREF / AREF (optionally a second ring, either listing order) raw->protobuf on cell rings, raw->GDSII / raw->protobuf of an element whose layer does not define its purpose, raw->protobuf of an unnamed instance rotated by 22.5 degrees, and gridded layout->raw of a cut lying under an instance / of two overlapping cuts - where the rendered error is the compared output. Configurations: every input is rebuilt / re-imported with fresh HashMaps until each of the k! iteration orders of every map the exporter walks has been observed on the very map objects (minimum 32, cap 4096 rebuilds; coverage measured and reported as tags), plus fresh OS processes, plus the same input once more after each of three *other* inputs went through the same conversion in the same process (no state carried from one library to the next); conversions that expose no map (GDSII->raw) are repeated 32 times - unordered containers internal to a converter cannot be enumerated, only exercised. Two of the three layers may share a layer number, and then the other layers also define each purpose under two numbers. A state is (input, conversion); non-trivial = some map has >= 2 keys.".into(),
             assumptions: vec!["an unordered map in the raw data model itself is rendered sorted (a map has no order); every ordered container must keep its order".into()],
             excluded: vec!["gridded layout -> raw is exercised on three stacks x a few cells only (the C08 alphabet is not re-enumerated here)".into()],
             technique: "exhaustive enumeration of hash-map iteration orders (observed on the real map objects) x inputs x conversions; outputs compared byte-for-byte within and across processes".into(),
@@ -648,6 +648,43 @@ impl CaseDriver for C20 {
                 break;
             }
         }
+        // the same input again after *other* inputs went through the same conversion in this process (a converter
+        // must not carry state from one library to the next)
+        {
+            let others = [
+                Case { dup_layer_nums: !case.dup_layer_nums, ..case.clone() },
+                Case { perm: (case.perm + 1) % 6, port_layers: 1 + case.port_layers % 3, ..case.clone() },
+                Case { two_ports: !case.two_ports, two_shapes: !case.two_shapes, ..case.clone() },
+            ];
+            for o in &others {
+                cx.stats.evaluations += 2;
+                let _ = guard(|| convert_once(o));
+                match guard(|| convert_once(case)) {
+                    Ok(Ok((_, out))) => {
+                        if Some(&out) != first.as_ref() {
+                            cx.outcome("differs-after-another-input");
+                            cx.fail(
+                                key,
+                                &format!("state-carried-over:{}", CONVS[case.conv]),
+                                None,
+                                || format!("{}: converting this input again after another input ({o:?}) was converted gives a different output", CONVS[case.conv]),
+                                || json!({"case": format!("{case:?}"), "other": format!("{o:?}"), "first": truncate(first.as_ref().unwrap(), 600), "again": truncate(&out, 600)}),
+                            );
+                            return;
+                        }
+                    }
+                    Ok(Err(e)) => {
+                        cx.fail(key, "conversion-error", None, || format!("{}: conversion failed when repeated after another input: {}", CONVS[case.conv], truncate(&e, 200)), || json!(format!("{case:?}")));
+                        return;
+                    }
+                    Err(p) => {
+                        cx.fail(key, "conversion-panic", None, || format!("{}: {}", CONVS[case.conv], p.short()), || json!(format!("{case:?}")));
+                        return;
+                    }
+                }
+            }
+            cx.tag("interleaved-with-other-inputs");
+        }
         if !complete {
             cx.tag("order-coverage-incomplete");
             cx.machinery(format!("C20: could not observe all map iteration orders within {cap} rebuilds for {case:?}"));
@@ -690,7 +727,7 @@ impl CaseDriver for C20 {
     }
     fn guards(&self, _tier: Tier, stats: &Stats, _d: u64) -> Result<(), String> {
         require_tags(stats, &CONVS)?;
-        require_tags(stats, &["order-coverage-complete", "maps-with-up-to-3-keys", "cross-process"])?;
+        require_tags(stats, &["order-coverage-complete", "maps-with-up-to-3-keys", "cross-process", "interleaved-with-other-inputs"])?;
         if stats.tags.get("order-coverage-incomplete").copied().unwrap_or(0) > 0 {
             return Err("map-order coverage incomplete for some input".into());
         }
